@@ -39,8 +39,6 @@ Definition obs_of_observation (o : observation) : option obs :=
 Definition klass_tok (k : option klass) : bytes :=
   match k with
   | None => dash
-  | Some KLfLineStart => B "lf_at_line_start_panics"
-  | Some KBareData => B "external_bare_data_unknown_creds"
   | Some KMalformed => B "malformed_line_aborts"
   end.
 
